@@ -92,7 +92,16 @@ func TestC09(t *testing.T) {
 		genWorldCase(profileC09, 2, 4, 10, 45),
 		func(c WorldCase, col *Collector) outcome {
 			s := sim.New(buildWorld(c))
-			s.Checkers = []func(*sim.Sim, *sim.Step) *sim.Violation{sim.CheckC09(sim.NewC09State())}
+			c02 := sim.CheckC02(&sim.C02State{Accepted: map[sim.ChanSeq]int{}})
+			provable := func(sm *sim.Sim, st *sim.Step) *sim.Violation {
+				// "each successful send leaves exactly one provable commitment": a genuine receive with a valid
+				// proof of that commitment must be accepted at the next hop
+				if v := c02(sm, st); v != nil && v.Sig == "genuine-packet-refused" {
+					return &sim.Violation{Property: "C09", Sig: "commitment-not-provable", Msg: v.Msg}
+				}
+				return nil
+			}
+			s.Checkers = []func(*sim.Sim, *sim.Step) *sim.Violation{sim.CheckC09(sim.NewC09State()), provable}
 			out := runOps(s, append(tokenPreamble(c.N), c.Ops...))
 			col.AddLabels(s.Labels)
 			if s.Labels["fail-between-successes-different-users"] > 0 {
